@@ -307,9 +307,22 @@ def _shard_worker(argt):
         for c in all_cases[:2] + all_cases[-1:]:
             res["samples"].append(dict(lines=c.lines[:6], classes=list(c.classes), desc=c.desc))
         res["distinct"] = list(res["distinct"])
+        import resource
+        res["maxrss_mb"] = resource.getrusage(resource.RUSAGE_SELF).ru_maxrss // 1024
         return res
     except Exception:
         return {"fatal": traceback.format_exc()}
+
+
+def pmap(fn, tasks, procs=NCPU):
+    """pool.map that cannot hang: a worker that is killed (OOM killer, signal) breaks the pool, which is reported as an
+    INCONCLUSIVE outcome, never a verdict."""
+    import concurrent.futures as cf
+    try:
+        with cf.ProcessPoolExecutor(max_workers=procs) as pool:
+            return list(pool.map(fn, tasks, chunksize=1))
+    except cf.process.BrokenProcessPool as e:
+        raise Inconclusive("a worker process died (killed by the system, probably out of memory): %s" % (e,))
 
 
 def run_sharded(gen_mod, gen_name, gen_args, exes, seed, nshards=NCPU, wrapper=None, exe_args=None,
@@ -318,10 +331,9 @@ def run_sharded(gen_mod, gen_name, gen_args, exes, seed, nshards=NCPU, wrapper=N
     nshards worker processes against each (config, exe) and merge results."""
     tasks = [(gen_mod, gen_name, gen_args, s, nshards, seed, exes, wrapper, exe_args, timeout)
              for s in range(nshards)]
-    with mp.Pool(min(procs, nshards)) as pool:
-        results = pool.map(_shard_worker, tasks, chunksize=1)
+    results = pmap(_shard_worker, tasks, min(procs, nshards))
     merged = {"events": 0, "cases": 0, "classes": {}, "viol": [], "incon": [], "distinct": set(),
-              "samples": [], "steps_max": 0, "per_config": {}}
+              "samples": [], "steps_max": 0, "per_config": {}, "maxrss_mb": 0}
     for r in results:
         if "fatal" in r:
             merged["incon"].append("worker crashed: " + r["fatal"][-1500:])
@@ -335,13 +347,22 @@ def run_sharded(gen_mod, gen_name, gen_args, exes, seed, nshards=NCPU, wrapper=N
         merged["distinct"].update(bytes(x) for x in r["distinct"])
         merged["samples"].extend(r["samples"][:1])
         merged["steps_max"] = max(merged["steps_max"], r["steps_max"])
+        merged["maxrss_mb"] = max(merged["maxrss_mb"], r.get("maxrss_mb", 0))
         for k, v in r["per_config"].items():
             merged["per_config"][k] = merged["per_config"].get(k, 0) + v
     return merged
 
 
-def run_rounds(rounds, gen_mod, gen_name, gen_args, exes, seed, **kw):
-    """Several sharded runs with derived seeds, merged (keeps the memory of a single round bounded)."""
+def run_rounds(rounds, gen_mod, gen_name, gen_args, exes, seed, split=1, count_idx=(), **kw):
+    """Several sharded runs with derived seeds, merged (keeps the memory of a single round bounded).
+    split=k with count_idx=(i, ...) runs k times as many rounds, each with gen_args[i] divided by k: same total work,
+    1/k of the per-worker memory."""
+    if split > 1:
+        ga = list(gen_args)
+        for i in count_idx:
+            ga[i] = ga[i] // split + 1
+        gen_args = tuple(ga)
+        rounds *= split
     total = None
     for r in range(rounds):
         m = run_sharded(gen_mod, gen_name, gen_args, exes, seed + 7919 * r, **kw)
@@ -357,6 +378,7 @@ def run_rounds(rounds, gen_mod, gen_name, gen_args, exes, seed, **kw):
             total["distinct"].update(m["distinct"])
             total["samples"].extend(m["samples"][:1])
             total["steps_max"] = max(total["steps_max"], m["steps_max"])
+            total["maxrss_mb"] = max(total.get("maxrss_mb", 0), m.get("maxrss_mb", 0))
             for k, v in m["per_config"].items():
                 total["per_config"][k] = total["per_config"].get(k, 0) + v
         if total["viol"]:
@@ -423,6 +445,7 @@ class Report:
         self.incon.extend(m["incon"])
         self.samples.extend(m["samples"][:3])
         self.steps_max = max(self.steps_max, m.get("steps_max", 0))
+        self.extra["worker_maxrss_mb"] = max(self.extra.get("worker_maxrss_mb", 0), m.get("maxrss_mb", 0))
         for k, v in m.get("per_config", {}).items():
             self.per_config[k] = self.per_config.get(k, 0) + v
 
